@@ -436,7 +436,32 @@ pub fn raw_strategy() -> impl Strategy<Value = RawCase> {
         data.extend(tail);
         RawCase { types: vec![ty, RType { kind: RKind::Uint(8), vari: false, trai: false, scod: 0 }], big_endian, data }
     });
-    prop_oneof![10 => free, 2 => split_char, 1 => twins, 1 => missing_prefix, 1 => own_word]
+    // a later string field whose bytes are a prefix of an earlier string field (cut anywhere, also inside a character)
+    let prefix_twins = (vec(prop::sample::select(vec!["Z", "ü", "r", "€", "𝄞", "i", "ß"]), 1..8), any::<u16>(), vec(prop::sample::select(vec![RKind::Uint(8), RKind::Raw, RKind::Bool]), 0..3), any::<bool>(), g::scod()).prop_map(|(pieces, cut, between, big_endian, scod)| {
+        let text: String = pieces.concat();
+        let k = (cut as usize * (text.len() + 1)) >> 16;
+        let p16 = |d: &mut Vec<u8>, v: u16| d.extend_from_slice(&if big_endian { v.to_be_bytes() } else { v.to_le_bytes() });
+        let plain = |kind| RType { kind, vari: false, trai: false, scod };
+        let mut types = vec![plain(RKind::Str)];
+        let mut data = vec![];
+        p16(&mut data, text.len() as u16);
+        data.extend_from_slice(text.as_bytes());
+        for kd in between {
+            types.push(plain(kd));
+            match kd {
+                RKind::Raw => {
+                    p16(&mut data, 2);
+                    data.extend_from_slice(&[0xC3, 0x28]);
+                }
+                _ => data.push(1),
+            }
+        }
+        types.push(plain(RKind::Str));
+        p16(&mut data, k as u16);
+        data.extend_from_slice(&text.as_bytes()[..k]);
+        RawCase { types, big_endian, data }
+    });
+    prop_oneof![10 => free, 2 => split_char, 1 => twins, 1 => missing_prefix, 1 => own_word, 1 => prefix_twins]
 }
 
 /// Block b of the trailing-length sweep: byte order x {string, raw} x closing-field length 0..=5 x 3 list prefixes;
